@@ -111,7 +111,7 @@ pub fn check(c: &Case) -> CheckResult {
             }
             // 16.16 matrix entries times the pixel index, plus f32 inverse/concatenation noise
             let scale = 1.0 + u.abs().max(v.abs());
-            let eps = if dyadic_tr { 0.0 } else { (px + py + 2) as f64 / 65536.0 + 1e-4 + 4e-6 * scale };
+            let eps = if dyadic_tr { 0.0 } else { 1.5 * (px + py + 2) as f64 / 65536.0 + 1e-4 + 4e-6 * scale };
             if int_tr {
                 // pure integer translation: both filters must return exactly the addressed texel
                 let t = texel(&c.img, u.floor() as i64, v.floor() as i64, c.repeat);
@@ -239,6 +239,20 @@ pub fn image_probe(maxw: i32, maxh: i32) -> BoxedStrategy<ImageSpec> {
         1 => (1..=maxw, 1..=maxh).prop_map(|(w, h)| ImageSpec { w, h, data: (0..w * h).map(|i| 0xff00_0000 | (((i % w) as u32 * 30) << 16) | (((i / w) as u32 * 30) << 8) | 0x80).collect() }),
     ]
     .boxed()
+}
+
+/// matrices within 1e-3 of an integer translation (a zoom of 1.0004, a rotation of half a milliradian) on long
+/// surfaces: treated as "close enough to a translation" they drift by whole texels within a few hundred pixels
+fn near_identity_strategy() -> BoxedStrategy<Case> {
+    let near = prop_oneof![
+        (prop::sample::select(vec![1.0e-4f32, -1.0e-4, 4.0e-4, -5.0e-4, 9.0e-4, -9.0e-4]), prop::sample::select(vec![0.0f32, 3.0e-4, -7.0e-4]), -4i32..=4, -4i32..=4).prop_map(|(e, f, x, y)| [1.0 + e, 0., 0., 1.0 + f, x as f32, y as f32]),
+        (prop::sample::select(vec![5.0e-4f32, -5.0e-4, 9.0e-4, 2.0e-4]), -4i32..=4, -4i32..=4).prop_map(|(a, x, y)| [(a as f64).cos() as f32, (a as f64).sin() as f32, -(a as f64).sin() as f32, (a as f64).cos() as f32, x as f32, y as f32]),
+        (prop::sample::select(vec![5.0e-4f32, -8.0e-4]), -4i32..=4, -4i32..=4).prop_map(|(k, x, y)| [1., 0., k, 1., x as f32, y as f32]),
+    ];
+    let tr = (-6i32..=6, -6i32..=6).prop_map(|(x, y)| [1.0f32, 0., 0., 1., x as f32, y as f32]);
+    (prop_oneof![(600i32..=2048, 1i32..=2), (1i32..=2, 600i32..=2048)], image_probe(8, 8), any::<bool>(), any::<bool>(), prop_oneof![2 => Just(1.0f32), 1 => Just(0.5f32)], near, tr, any::<bool>())
+        .prop_map(|((w, h), img, repeat, nearest, alpha, near, tr, on_ctm)| if on_ctm { Case { w, h, img, repeat, nearest, alpha, ctm: near, sxf: tr } } else { Case { w, h, img, repeat, nearest, alpha, ctm: tr, sxf: near } })
+        .boxed()
 }
 
 pub fn strategy() -> BoxedStrategy<Case> {
@@ -371,9 +385,9 @@ fn draw_strategy() -> BoxedStrategy<DrawCase> {
 pub fn property(_ctx: &Ctx) -> Property {
     Property {
         id: "C13",
-        rule: "part sample: images 1..8 x 1..8 (one in forty 257..300 texels long or tall) of random premultiplied texels (plus position-coded images), Pad/Repeat, Nearest/Bilinear, alpha in {1,0.5,uniform}, CTM and source transform each from {identity, integer translation (negative, beyond the image), fractional translation, half/quarter-pixel translation, scale 0.2-3, rotation x scale, integer scales 2/3/5/-1, lattice matrices (entries 0/1/-1/arbitrary) and unit-diagonal shears with whole-number translations}, optionally with user space zoomed (both matrices times 4096, 65536 or 1/64), surfaces 2..16 px, rendered with a full-surface Src fill. Oracle: f64 texel addressing M(pixel centre) (inverse CTM then source transform): nearest = texel(floor) with clamp / euclidean wrap, either neighbour accepted within the 16.16 epsilon (no allowance when both matrices are translations by multiples of 1/256, where every step is exact; half- and quarter-pixel translations are generated so that samples fall exactly on texel boundaries); bilinear within [min-2,max+2] of the four texels around (u-0.5,v-0.5), the exact texel at exactly representable texel centres; integer translations exact for both filters; alpha scaling within 1/255 (exact at alpha 1). part draw: draw_image_at at integer (exact texel placement) and fractional positions and draw_image_with_size_at with random sizes; pixels wholly outside the rectangle untouched, inside by the bilinear rule. Non-trivial: image >= 2x2 with >= 2 distinct texels and (some sample outside the image or a non-integer-translation matrix); distinct by hash of the case.",
-        assumptions: vec!["sampling epsilon (px+py+2)/65536 + 1e-4 (+4e-6 x coordinate scale) for the 16.16 matrix and the f32 inverse", "pixels straddling the rectangle edge of draw_image_* are not judged"],
-        parts: vec![part("sample", 100_000, 2_000_000, strategy, check), part("draw", 40_000, 600_000, draw_strategy, check_draw)],
+        rule: "part sample: images 1..8 x 1..8 (one in forty 257..300 texels long or tall) of random premultiplied texels (plus position-coded images), Pad/Repeat, Nearest/Bilinear, alpha in {1,0.5,uniform}, CTM and source transform each from {identity, integer translation (negative, beyond the image), fractional translation, half/quarter-pixel translation, scale 0.2-3, rotation x scale, integer scales 2/3/5/-1, lattice matrices (entries 0/1/-1/arbitrary) and unit-diagonal shears with whole-number translations}, optionally with user space zoomed (both matrices times 4096, 65536 or 1/64), surfaces 2..16 px, rendered with a full-surface Src fill. Oracle: f64 texel addressing M(pixel centre) (inverse CTM then source transform): nearest = texel(floor) with clamp / euclidean wrap, either neighbour accepted within the 16.16 epsilon (no allowance when both matrices are translations by multiples of 1/256, where every step is exact; half- and quarter-pixel translations are generated so that samples fall exactly on texel boundaries); bilinear within [min-2,max+2] of the four texels around (u-0.5,v-0.5), the exact texel at exactly representable texel centres; integer translations exact for both filters; alpha scaling within 1/255 (exact at alpha 1). part near-identity: surfaces 600..2048 px long, CTM or image transform within 1e-3 of an integer translation (scale 1+-e, rotation or shear of +-5e-4..9e-4), same oracle. part draw: draw_image_at at integer (exact texel placement) and fractional positions and draw_image_with_size_at with random sizes; pixels wholly outside the rectangle untouched, inside by the bilinear rule. Non-trivial: image >= 2x2 with >= 2 distinct texels and (some sample outside the image or a non-integer-translation matrix); distinct by hash of the case.",
+        assumptions: vec!["sampling epsilon 1.5 (px+py+2)/65536 + 1e-4 (+4e-6 x coordinate scale) for the 16.16 matrix and the f32 inverse", "pixels straddling the rectangle edge of draw_image_* are not judged"],
+        parts: vec![part("sample", 100_000, 2_000_000, strategy, check), part("draw", 40_000, 600_000, draw_strategy, check_draw), part("near-identity", 600, 12_000, near_identity_strategy, check)],
         min_class_fraction: vec![
             ("sample", "shader:integer-translation", 0.05),
             ("sample", "shader:nearest", 0.1),
